@@ -167,6 +167,8 @@ def h_built(L, T, ty, name, steps, checks):
     def mat(x):
         if isinstance(x, tuple) and x and x[0] == 'hole':
             b = L.sym_bytes(x[1], x[2])
+            if len(x) > 3:
+                L.restrict(b, x[3])
             L.assume_utf8(b)
             return b
         return list(x.encode() if isinstance(x, str) else x)
@@ -190,7 +192,7 @@ def h_built(L, T, ty, name, steps, checks):
 def show_steps(ty, name, steps):
     def sh(x):
         if isinstance(x, tuple):
-            return '⟦%d⟧' % x[2]
+            return hole_text(x)
         return repr(x if isinstance(x, str) else bytes(x).decode('utf8', 'replace'))
     return 'new(%s,%s)' % (sh(ty), sh(name)) + ''.join('.%s(%s)' % (s[0], ','.join(sh(a) for a in s[1:])) for s in steps)
 
@@ -224,4 +226,16 @@ def build_family(tier, checks, kinds=('String', 'Purl'), name_prefix=''):
         if T != 'Purl':
             for n in lens(m):
                 add(T, ('hole', 'h', n), 'n', [])
+        if T == kinds[0] or th:
+            # many qualifiers, then removal / override with a free key (positions at which a vector-backed map can go wrong)
+            MANY = [('with_qualifier', k, v) for k, v in (('c', '1'), ('a', '2'), ('e', '3'), ('b', '4'), ('d', '5'))]
+            add(T, ty, 'n', MANY + [('without_qualifier', ('hole', 'h', 1))])
+            add(T, ty, 'n', MANY + [('without_qualifier', ('hole', 'h', 1)), ('with_qualifier', ('hole', 'g', 1), 'x')])
+            add(T, ty, 'n', MANY[:3] + [('without_qualifier', ('hole', 'h', 1)), ('with_qualifier', ('hole', 'g', 1), 'x'), ('without_qualifier', ('hole', 'f', 1))])
+            add(T, ty, 'n', MANY + [('with_qualifier', ('hole', 'h', 1), ('hole', 'g', 1))])
+            # structure characters only, longer holes: runs of separators and dot segments through the builder
+            for n in ((4, 5, 6) if th else (4, 5)):
+                add(T, ty, 'n', [('with_namespace', ('hole', 'h', n, b'/a'))])
+                add(T, ty, 'n', [('with_subpath', ('hole', 'h', n, b'/.a'))])
+            add(T, ty, 'n', FULL + [('with_namespace', ('hole', 'h', 5, b'/a')), ('with_subpath', ('hole', 'g', 3, b'/.a'))])
     return qs
